@@ -119,6 +119,9 @@ Definition dispatch (req : sx) : sx :=
     SL (map (fun o => SB (get_string (gB a1) (gI a2) (gI o))) (gL a3))
   else if op =? "seg_data" then SB (segment_data (gB a1) (gI a2) (gI a3))
   else if op =? "interp" then sx_data (get_interp_name (gB a1) (gI a2))
+  (* the Segment object built from the program header at file position a4: stream le is64 pos *)
+  else if op =? "seg_data_at" then sx_data (segment_data_at (gB a1) (gbool a2) (gbool a3) (gI a4))
+  else if op =? "interp_at" then sx_data (interp_name_at (gB a1) (gbool a2) (gbool a3) (gI a4))
   else if op =? "addr" then
     (* stream le is64 machine phoff phentsize phnum start size *)
     sx_res sx_ints (address_offsets (gB a1) (gbool a2) (gbool a3) (p_type_table (gS a4))
